@@ -40,9 +40,33 @@ PROPS = {
                         "the deletion callback is not re-entrant (granted by the property)",
                         "SetDelCallBackFn is configuration, called before concurrent use"],
     },
+    "C01": {
+        "run": "Run.Run_C01",
+        "rule": "(A) complete sweep: all 255 non-zero values of int8 and of uint8 x every bound (bound pair for to/oto) of a window x the 8 rules, through "
+                "valid.Var; the Coq side recomputes the verdict tables from the model and from the interval spec. (B) boundary generator: kinds "
+                "{string ASCII/CJK/invalid UTF-8, int8..int64, int, uint8..uint64, uint, float32, float64, slice} x rule x bounds (negative, 0, lo>hi, "
+                "+-2^31, +-2^53, int64 extremes) x measures at bound-1, bound, bound+1 (+-0.5 and +-ulp for floats) x entry points (Var, struct field, "
+                "map entry, URL parameter raw and percent-encoded); every instance carries a unique marker message. distinct cell = (rule, kind "
+                "class, position of the measure relative to both bounds, entry point) plus one cell per sweep table.",
+        "trusted": ["translator: rule table validName2FnMap, rule-name constants", "correspondence: Go driver c01.go + walkcommon.go, Run/Run_C01.v, Run/Run_Walk.v, bin/check",
+                    "oracle: decimal rendering of floats (strconv.FormatFloat) supplied by the harness for the echo only"],
+        "assumptions": ["float bounds beyond 2^53 and NaN / infinities are outside the property's domain (float64(min) would round)",
+                        "bound text beyond int64 is outside 'integer bounds'",
+                        "map[string]interface{} presentation: known finding C18-iface-map-values"],
+    },
 }
 
 LEVELS = {
+    "C01": {
+        "text": "Theorems in Coq: for every rule text whose bounds parse, every object/field name and every non-zero value of a sized kind, each of the 8 "
+                "rule functions writes a clause exactly when the measure (rune count / exact integer or dyadic value / slice length) lies outside the "
+                "stated set, and at most one clause; the verdict depends on the measure only (width, signedness irrelevant). A finite 8-bit sweep "
+                "through the rule text is proved by computation. Model tied to the code by the complete 8-bit sweep and boundary cases evaluated in Coq.",
+        "design_ref": "DESIGN.md section 5, C01",
+        "note": "Trusted: Coq kernel + vm_compute; translator (rule table); correspondence harness; reflect/strconv/utf8 modelled at the calls used. "
+                "The parse of builder-written bound text (Itoa/Atoi round trip) is covered by the finite sweep theorem and the correspondence, not by an unbounded lemma.",
+        "technique": "Coq proof (case analysis + linear arithmetic over Z, finite sweep by vm_compute) + model-vs-implementation correspondence evaluated in Coq",
+    },
     "C10": {
         "text": "Theorems in Coq about an interleaving semantics with a reader/writer lock: the lock/field summary of every LRUCache method is "
                 "regenerated from cache.go on every run and must pass race_freeb (proved sound for all schedules and any number of threads); under "
